@@ -37,6 +37,8 @@ pub enum Plan
     {
         pos: u16,
     },
+    /// TMPDIR really on another filesystem: every rename fails with EXDEV
+    CrossFs,
 }
 
 #[derive(Clone, Debug, PartialEq, Eq, Hash, Serialize, Deserialize)]
@@ -81,6 +83,7 @@ fn plan() -> BoxedStrategy<Plan>
         1 => (any::<u16>(), any::<u16>(), any::<u8>()).prop_map(|(pos1, pos2, errno)| Plan::Fail2 { pos1, pos2, errno }),
         2 => (any::<u16>(), any::<bool>()).prop_map(|(pos, int)| Plan::Sig { pos, int }),
         2 => any::<u16>().prop_map(|pos| Plan::Kill { pos }),
+        1 => Just(Plan::CrossFs),
     ]
     .boxed()
 }
@@ -222,11 +225,16 @@ fn copy_dir(from: &std::path::Path, to: &std::path::Path)
 
 fn run_in(sb: &Sandbox, check: bool, plan: Option<String>) -> RunResult
 {
+    run_in_tmp(sb, check, plan, None)
+}
+
+fn run_in_tmp(sb: &Sandbox, check: bool, plan: Option<String>, tmpdir: Option<std::path::PathBuf>) -> RunResult
+{
     run_breadlog(&RunSpec {
         check,
         cwd: sb.proj(),
         config_arg: "Breadlog.yaml".into(),
-        tmpdir: sb.tmp(),
+        tmpdir: tmpdir.unwrap_or_else(|| sb.tmp()),
         plan,
         trace: true,
         roots: vec![sb.root.clone()],
@@ -384,7 +392,7 @@ pub fn check(h: &History) -> CaseOutcome
                 // map the plan onto the op count of a recording run on a copy
                 let plan_str = match p
                 {
-                    Plan::None => None,
+                    Plan::None | Plan::CrossFs => None,
                     _ =>
                     {
                         let rec_sb = Sandbox::new();
@@ -417,12 +425,23 @@ pub fn check(h: &History) -> CaseOutcome
                                 },
                                 Plan::Sig { pos, int } => format!("sig:{}:{}", pick(*pos).k, if *int { 2 } else { 15 }),
                                 Plan::Kill { pos } => format!("kill:{}", pick(*pos).k),
-                                Plan::None => unreachable!(),
+                                Plan::None | Plan::CrossFs => unreachable!(),
                             })
                         }
                     },
                 };
-                let r = run_in(&w.sb, false, plan_str.clone());
+                let cross = if matches!(p, Plan::CrossFs)
+                {
+                    let base = build_dir().join("work");
+                    let _ = std::fs::create_dir_all(&base);
+                    Some(Sandbox::new_in(&base))
+                }
+                else
+                {
+                    None
+                };
+                let r = run_in_tmp(&w.sb, false, plan_str.clone(), cross.as_ref().map(|c| c.root.clone()));
+                let plan_str = if cross.is_some() { Some("TMPDIR on another filesystem".to_string()) } else { plan_str };
                 o.evals += 1;
                 if r.exit == Exit::Timeout
                 {
@@ -436,6 +455,7 @@ pub fn check(h: &History) -> CaseOutcome
                     Plan::Fail { .. } | Plan::Fail2 { .. } => "edit-io-failure",
                     Plan::Sig { .. } => "edit-stop-signal",
                     Plan::Kill { .. } => "edit-killed",
+                    Plan::CrossFs => "edit-cross-filesystem-tmpdir",
                 });
                 let newly = observe(&w, &mut ghost, &mut o, &log, step);
                 if newly > 0 && armed
@@ -489,7 +509,7 @@ pub fn run(env: &Env, rec: &Recorder) -> (String, Vec<&'static str>)
 {
     pbt_opts(env, rec, "histories", env.cases(1500, 30000), 300, &strategy, &check);
     (
-        "histories of 4-25 operations over a project of 1-4+ files with the lock in use and never touched by the developer: add statement / delete statement (biased to the highest ID) / add file / delete file / --check / edit run carrying a fault plan (none 50 %, one or two injected I/O failures, SIGTERM/SIGINT, SIGKILL, positioned by a fraction mapped onto the operation count of a recording run on a copy). Ghost map ID -> statement identity (unique marker in each message); after every run the harness's own scanner reads the tree: an ID seen with a different statement than before is a reuse; after every edit run, however it ended, a parsable lock must be ahead of every ID ever written; --check must change nothing. Non-trivial = distinct history where a faulted/interrupted edit that inserted IDs, or the deletion of the statement with the highest ID, is followed by a later edit that inserts IDs".to_string(),
+        "histories of 4-25 operations over a project of 1-4+ files with the lock in use and never touched by the developer: add statement / delete statement (biased to the highest ID) / add file / delete file / --check / edit run carrying a fault plan (none 50 %, one or two injected I/O failures, SIGTERM/SIGINT, SIGKILL, or TMPDIR really on another filesystem; positioned by a fraction mapped onto the operation count of a recording run on a copy). Ghost map ID -> statement identity (unique marker in each message); after every run the harness's own scanner reads the tree: an ID seen with a different statement than before is a reuse; after every edit run, however it ended, a parsable lock must be ahead of every ID ever written; --check must change nothing. Non-trivial = distinct history where a faulted/interrupted edit that inserted IDs, or the deletion of the statement with the highest ID, is followed by a later edit that inserts IDs".to_string(),
         vec!["developer copy/paste of a statement together with its ID is not generated (duplicates not caused by the tool)", "the developer never edits or deletes Breadlog.lock", "an absent or unparsable lock is judged through the reuse oracle on later steps, not directly"],
     )
 }
